@@ -69,29 +69,29 @@ SPEC = dict(
     properties=['C02', 'C05', 'C01'],
     ctx={},
     extracts={
-        'started_init': dict(file=H, kind='expr', sig=r'bool started_ = ([^;]*);'),
+        'started_init': dict(file=H, kind='expr', sig=r'bool started_\s*(=?[^;]*);'),
         # source receiver
-        'src_set_value': R(SRCV, r'void set_value\(Values&&\.\.\. values\) && noexcept', must_contain=[r'op->value_', r'op->sourceOp_']),
-        'src_set_error': R(SRCV, r'void set_error\(Error&& error\) && noexcept', must_contain=[r'op->error_', r'op->sourceOp_']),
-        'src_set_done': R(SRCV, r'void set_done\(\) && noexcept', must_contain=[r'op->sourceOp_']),
+        'src_set_value': R(SRCV, r'void set_value\(Values&&\.\.\. values\) && noexcept', must_contain=[r'value_receiver']),
+        'src_set_error': R(SRCV, r'void set_error\(Error&& error\) && noexcept', must_contain=[r'error_receiver_t']),
+        'src_set_done': R(SRCV, r'void set_done\(\) && noexcept', must_contain=[r'done_receiver']),
         # completion receivers
-        'val_set_value': R(VRCV, r'void set_value\(\) && noexcept', must_contain=[r'completionValueOp_']),
-        'val_set_error': R(VRCV, r'void set_error\(Error&& error\) && noexcept', must_contain=[r'completionValueOp_']),
-        'val_set_done': R(VRCV, r'void set_done\(\) && noexcept', must_contain=[r'completionValueOp_']),
-        'err_set_value': R(ERCV, r'void set_value\(\) && noexcept', must_contain=[r'completionErrorOp_']),
-        'err_set_error': R(ERCV, r'void set_error\(OtherError otherError\) && noexcept', must_contain=[r'completionErrorOp_']),
-        'err_set_done': R(ERCV, r'void set_done\(\) && noexcept', must_contain=[r'completionErrorOp_']),
-        'done_set_value': R(DRCV, r'void set_value\(\) && noexcept', must_contain=[r'completionDoneOp_']),
-        'done_set_error': R(DRCV, r'void set_error\(Error&& error\) && noexcept', must_contain=[r'completionDoneOp_']),
-        'done_set_done': R(DRCV, r'void set_done\(\) && noexcept', must_contain=[r'completionDoneOp_']),
+        'val_set_value': R(VRCV, r'void set_value\(\) && noexcept', must_contain=[r'op_']),
+        'val_set_error': R(VRCV, r'void set_error\(Error&& error\) && noexcept', must_contain=[r'op_']),
+        'val_set_done': R(VRCV, r'void set_done\(\) && noexcept', must_contain=[r'op_']),
+        'err_set_value': R(ERCV, r'void set_value\(\) && noexcept', must_contain=[r'op_']),
+        'err_set_error': R(ERCV, r'void set_error\(OtherError otherError\) && noexcept', must_contain=[r'op_']),
+        'err_set_done': R(ERCV, r'void set_done\(\) && noexcept', must_contain=[r'op_']),
+        'done_set_value': R(DRCV, r'void set_value\(\) && noexcept', must_contain=[r'op_']),
+        'done_set_error': R(DRCV, r'void set_error\(Error&& error\) && noexcept', must_contain=[r'op_']),
+        'done_set_done': R(DRCV, r'void set_done\(\) && noexcept', must_contain=[r'op_']),
         # operation state
-        'op_ctor': dict(file=H, sig=r'explicit type\(\s*SourceSender&& sourceSender,', within=[NS, OPCLS], ctx=op_ctx, must_contain=[r'sourceOp_']),
+        'op_ctor': dict(file=H, sig=r'explicit type\(\s*SourceSender&& sourceSender,\s*CompletionSender2&& completionSender,\s*Receiver2&& r\)', within=[NS, OPCLS], ctx=op_ctx, must_contain=[r'sourceSender']),
         'op_dtor': dict(file=H, sig=r'~type\(\)', within=[NS, OPCLS], ctx=op_ctx),
         'op_start': dict(file=H, sig=r'void start\(\) & noexcept', within=[NS, OPCLS], ctx=op_ctx),
     },
     closed_world=[dict(file=H, within=NS,
                        members=['started_', 'sourceOp_', 'completionValueOp_', 'completionErrorOp_', 'completionDoneOp_', 'value_', 'error_'],
-                       allow=[r'bool started_ = false;', r'source_operation_t sourceOp_;', r'completion_value_union_t completionValueOp_;',
+                       allow=[r'bool started_\s*(?:=[^;]*)?;', r'source_operation_t sourceOp_;', r'completion_value_union_t completionValueOp_;',
                               r'completion_error_union_t completionErrorOp_;', r'manual_lifetime<done_operation> completionDoneOp_;',
                               r'(?s)sender_error_types_t<remove_cvref_t<SourceSender>, error_result_union>\s*error_;',
                               r'(?s)sender_value_types_t<\s*remove_cvref_t<SourceSender>,\s*manual_lifetime_union,\s*std::tuple>\s*value_;'])],
